@@ -419,6 +419,12 @@ func (s *Lexer) getNextToken() (*Token, error) {
 			buf.WriteRune(ch)
 			current_state = SBLOCKCOMMENT
 		} else if current_state == SCOMMENTSTART {
+			if ch == '\n' {
+				// an empty line comment ends at its newline like any other
+				s.unread_last()
+				current_state = SCOMMENT
+				break
+			}
 			buf.WriteRune(ch)
 			current_state = SCOMMENT
 		} else if ch == '(' && current_state == SSTART {
